@@ -54,6 +54,35 @@ struct Call {
 #[derive(Deserialize)]
 struct Req {
     calls: Vec<Call>,
+    /// optional: {"unknown": "Generate"|"Allow"|"Deny", "crates": [[name, "*"|"1.0.0", rename|null], ..]}
+    #[serde(default)]
+    settings: Option<Value>,
+}
+
+fn settings_of(v: &Option<Value>) -> typify_impl::TypeSpaceSettings {
+    use typify_impl::{CrateVers, TypeSpaceSettings, UnknownPolicy};
+    let mut st = TypeSpaceSettings::default();
+    if let Some(v) = v {
+        match v["unknown"].as_str() {
+            Some("Generate") => {
+                st.with_unknown_crates(UnknownPolicy::Generate);
+            }
+            Some("Allow") => {
+                st.with_unknown_crates(UnknownPolicy::Allow);
+            }
+            Some("Deny") => {
+                st.with_unknown_crates(UnknownPolicy::Deny);
+            }
+            _ => {}
+        }
+        for c in v["crates"].as_array().map(|x| x.as_slice()).unwrap_or(&[]) {
+            if let (Some(name), Some(vers)) = (c[0].as_str(), c[1].as_str().and_then(CrateVers::parse)) {
+                let rename = c[2].as_str().map(|s| s.to_string());
+                st.with_crate(name, vers, rename.as_ref());
+            }
+        }
+    }
+    st
 }
 
 fn err_kind(e: &Error) -> &'static str {
@@ -175,7 +204,7 @@ fn handle(line: &str) -> String {
         Ok(r) => r,
         Err(e) => return json!({"error": format!("bad request: {}", e)}).to_string(),
     };
-    let mut ts = TypeSpace::default();
+    let mut ts = TypeSpace::new(&settings_of(&req.settings));
     let _ = TypeSpace::verif_take_pre_cycles();
     let mut steps = Vec::new();
     for call in req.calls {
